@@ -121,8 +121,25 @@ func (e *Enum) setIsIota() {
 
 // fetchConstComment retrieve the comment, not exposed in go/types
 func fetchConstComment(pa *packages.Package, obj *types.Const) string {
-	node := nodeAt(pa, obj.Pos())
-	spec := node.(*ast.ValueSpec)
+	// the position of a constant is the position of its name: walk up to the
+	// enclosing specification, which may declare several names
+	var spec *ast.ValueSpec
+	declFile := pa.Fset.File(obj.Pos())
+	for _, file := range pa.Syntax {
+		if pa.Fset.File(file.Pos()) != declFile {
+			continue
+		}
+		ast.Inspect(file, func(n ast.Node) bool {
+			if vs, ok := n.(*ast.ValueSpec); ok && vs.Pos() <= obj.Pos() && obj.Pos() < vs.End() {
+				spec = vs
+				return false
+			}
+			return true
+		})
+	}
+	if spec == nil {
+		panic("constant declaration not found in *ast.File")
+	}
 	if spec.Comment == nil {
 		return ""
 	}
